@@ -203,6 +203,7 @@ class Hist:
         self.quarantine = set(run_cfg.get("quarantine", []))
         S.DBLMAX_AS_INF = False
         self.detached = {}
+        self.removed = {}  # (actor index, rid) -> (removed Reaction object, reference spec at removal time)
         self.changed = False
         spec = self.cfg["model"]
         model = build_model(spec)
@@ -300,6 +301,16 @@ class Hist:
         except Skip:
             self.stats["skipped"] += 1
             return
+        if kind == "readd_reaction":
+            ent = self.removed.get((ai, op.get("rid")))
+            env.readd_spec = None
+            if ent:
+                # the metabolite objects travel with the reaction object: their current attributes are inputs of the call
+                spec = {"x": ent[1]["x"], "mets": {}}
+                for m in ent[0]._metabolites:
+                    spec["mets"][m.id] = {"name": m.name, "formula": m.formula, "charge": m.charge, "compartment": m.compartment,
+                                          "notes": S._plain(m.notes), "annotation": S._plain(m.annotation)}
+                env.readd_spec = spec
         self.stats[f"op:{kind}"] += 1
         try:
             status = a.ref.apply(op, env)
@@ -319,6 +330,10 @@ class Hist:
         except Exception as e:  # the operation raised: a legal fault of a library
             raised = e
         if "fba" in self.oracles and kind in ("optimize", "slim_optimize"):
+            if a.model.objective_direction != pre.direction:
+                raise Violation("fba_direction", {"what": f"{kind} left the objective direction changed"
+                                                  + (f" (it raised {type(raised).__name__})" if raised else ""),
+                                                  "before": pre.direction, "after": a.model.objective_direction}, culprit=op)
             try:
                 if kind == "optimize":
                     fba.judge_optimize(pre, op, None if raised else ret, raised, a.model, self.stats,
@@ -662,7 +677,16 @@ class Hist:
 
     def do_edit_dict(self, a, op, env):
         obj = a.model if op["kind"] == "model" else {"rxn": self.rxn, "met": self.met, "gene": self.gene}[op["kind"]](a, op["id"])
-        getattr(obj, op["which"])[op["key"]] = copy.deepcopy(op["value"])
+        d = getattr(obj, op["which"])
+        if op.get("nested"):
+            # in-place edit of a nested mutable value: that is how annotations with several identifiers are extended
+            cur = d.get(op["key"])
+            if not isinstance(cur, list):
+                raise Skip("no nested list value")
+            cur.append(op["value"])
+            self.stats["probe:nested_value_edited_in_place"] += 1
+        else:
+            d[op["key"]] = copy.deepcopy(op["value"])
 
     def do_add_metabolites(self, a, op, env):
         ms = [_mk_met(d) for d in op["mets"]]
@@ -702,10 +726,30 @@ class Hist:
                 items.append(rid)
             else:
                 items.append(self.rxn(a, rid))
+        objs = {rid: a.model.reactions.get_by_id(rid) for rid in op["rs"] if a.model.reactions.has_id(rid)}
+        specs = {rid: self._rxn_spec(env.pre, rid) for rid in objs if rid in env.pre.rxns}
         if op.get("via") == "rxn" and len(items) == 1 and not isinstance(items[0], str):
             items[0].remove_from_model(remove_orphans=op.get("remove_orphans", False))
         else:
             a.model.remove_reactions(items, remove_orphans=op.get("remove_orphans", False))
+        if not a.model._contexts:
+            for rid, o in objs.items():
+                if rid in specs:
+                    self.removed[(self.actors.index(a), rid)] = (o, specs[rid])
+
+    def _rxn_spec(self, ref, rid):
+        x = ref.rxns[rid]
+        return {"x": copy.deepcopy(x), "mets": {m: copy.deepcopy(ref.mets[m]) for m in x["mets"] if m in ref.mets}}
+
+    def do_readd_reaction(self, a, op, env):
+        key = (self.actors.index(a), op["rid"])
+        if key not in self.removed or a.model.reactions.has_id(op["rid"]) or a.model._contexts:
+            raise Skip("no removed reaction object of that id")
+        obj, spec = self.removed.pop(key)
+        if any(m.id not in spec["mets"] for m in obj._metabolites):
+            raise Skip("stale")
+        self.stats["probe:removed_reaction_object_readded"] += 1
+        a.model.add_reactions([obj])
 
     def do_set_objective(self, a, op, env):
         how, items = op["how"], op["items"]
@@ -982,6 +1026,10 @@ class Hist:
         fmt = op["fmt"]
         want = project_observed(a.ref.content(), fmt)
         got = project_observed(copy.deepcopy(snap["content"]), fmt)
+        if a.ref.obj is None:  # objective set by a helper: not reaction-style, nothing documented to compare with
+            for rid in got["reactions"]:
+                if rid in want["reactions"]:
+                    want["reactions"][rid]["obj"] = got["reactions"][rid]["obj"]
         d = S.diff(got, want)
         empty_obj = fmt == "sbml" and not a.ref.obj  # no objective is written then; the direction has no meaning
         if not d and a.ref.direction != snap["objective"]["direction"] and not empty_obj:
@@ -1060,10 +1108,15 @@ class Hist:
             pred["mets"] = {m: v * op["k"] for m, v in pred["mets"].items()}
             if op["k"] < 0:
                 pred["lb"], pred["ub"] = -pred["ub"], -pred["lb"]
+        elif op["f"] in ("+0", "0+", "sum1"):
+            c = r + 0 if op["f"] == "+0" else 0 + r if op["f"] == "0+" else sum([r])
+            pred = copy.deepcopy(a.ref.rxns[op["r"]])
         else:
             o = self.rxn(a, op["r2"])
             c = r + o if op["f"] == "+" else r - o
             pred = None
+        if c is r or c.model is not None or any(m.model is not None for m in c.metabolites):
+            raise Violation("isolation", {"what": f"reaction arithmetic '{op['f']}' returned an object that is attached to the model"}, culprit=op)
         self._detach(op["key"], c, pred)
 
     def _detach(self, key, obj, refd):
@@ -1138,7 +1191,8 @@ def observe_user(model):
     user = {}
     for n, c in lp["cols"].items():
         if n not in rn:
-            user[n] = {"kind": "var", "lb": S._inf(c[0]), "ub": S._inf(c[1]), "coefs": {}}
+            user[n] = {"kind": "var", "lb": S._inf(c[0]), "ub": S._inf(c[1]), "coefs": {},
+                       "met_rows": {m: r[2][n] for m, r in lp["rows"].items() if m in mn and n in r[2]}}
     for n, r in lp["rows"].items():
         if n not in mn:
             user[n] = {"kind": "con", "lb": S._inf(r[0]), "ub": S._inf(r[1]), "coefs": dict(r[2])}
@@ -1171,7 +1225,7 @@ ALL_KINDS = {
     "remove_genes": 2, "rename_genes": 1, "medium": 2, "build_from_string": 1, "optimize": 2,
     "slim_optimize": 2, "repair": 1, "solver": 1, "tolerance": 1, "compartments": 1, "add_groups": 1,
     "remove_groups": 1, "enter": 0, "exit": 0, "exit_exc": 0, "copy": 0, "deepcopy": 0, "pickle": 0,
-    "rxn_copy": 1, "rxn_arith": 1, "edit_dict": 1, "restart": 0, "helper": 1, "merge": 1,
+    "rxn_copy": 1, "rxn_arith": 1, "edit_dict": 1, "restart": 0, "helper": 1, "merge": 1, "readd_reaction": 3,
 }
 
 PROP_BIAS = {
@@ -1343,8 +1397,10 @@ def gen_op(rng, H, sw):
                 key, val = rng.choice(["note", "curator", "confidence"]), rng.choice(["plain text", "x", "3"])
             op.update(kind=kind, id=i, which=which, key=key, value=val)
         else:
-            val = rng.choice(["v1", ["a", "b"]]) if which == "annotation" else rng.choice(["note", "other"])
+            val = rng.choice(["v1", ["a", "b"]]) if which == "annotation" else rng.choice(["note", "other", ["n1"]])
             op.update(kind=kind, id=i, which=which, key=rng.choice(["k1", "kegg", "sbo"]), value=val)
+            if rng.random() < 0.35:
+                op.update(nested=True, value=rng.choice(["x1", "x2"]))
     elif k == "add_metabolites":
         ms = []
         for _ in range(rng.randint(1, 2)):
@@ -1473,7 +1529,7 @@ def gen_op(rng, H, sw):
             op["raise_error"] = True
     elif k == "slim_optimize":
         if rng.random() < 0.3:
-            op["error_value"] = rng.choice([None, -1.0])
+            op["error_value"] = rng.choice([None, -1.0, 0, 0.0, False, 7.5])
     elif k == "solver":
         op["name"] = rng.choice(["glpk", "glpk_exact"])
     elif k == "tolerance":
@@ -1508,14 +1564,19 @@ def gen_op(rng, H, sw):
         right["solver"] = "glpk"
         op.update(right=right, prefix=rng.choice([None, None, "pre_"]), inplace=rng.random() < 0.75,
                   objective=rng.choice(["left", "left", "right", "sum"]))
+    elif k == "readd_reaction":
+        cands = sorted(r for (i, r) in H.removed if i == ai and r not in ref.rxns)
+        if not cands:
+            return gen_fallback(op, rid, rng)
+        op["rid"] = rng.choice(cands)
     elif k == "rxn_copy":
         op.update(r=rid(), key=f"d{len(H.detached)}")
     elif k == "rxn_arith":
-        f = rng.choice(["*", "+", "-"])
+        f = rng.choice(["*", "+", "-", "+0", "0+", "sum1"])
         op.update(r=rid(), f=f, key=f"d{len(H.detached)}")
         if f == "*":
             op["k"] = rng.choice(MULTS)
-        else:
+        elif f in ("+", "-"):
             op["r2"] = rid()
     return op
 
